@@ -1247,6 +1247,15 @@ public:
     return true;
   }
 
+  bool VisitEnumDecl(EnumDecl *ED)
+  {
+    if (!ED->isCompleteDefinition() || !D.underRoots(ED->getLocation()))
+      return true;
+    if (SeenRec.insert(ED->getCanonicalDecl()).second)
+      Enums.push_back(ED);
+    return true;
+  }
+
   bool VisitCXXRecordDecl(CXXRecordDecl *RD)
   {
     if (!RD->isCompleteDefinition() || RD->isDependentContext() || RD->isLambda())
@@ -1263,6 +1272,7 @@ public:
   std::vector<const FunctionDecl *> Fns;
   std::vector<const FunctionDecl *> Patterns;
   std::vector<const CXXRecordDecl *> Recs;
+  std::vector<const EnumDecl *> Enums;
   std::set<const Decl *> Seen;
   std::set<const Decl *> SeenRec;
 };
@@ -1301,6 +1311,24 @@ public:
       J.attributeArray("records", [&] {
         for (const CXXRecordDecl *RD : V.Recs)
           D.record(RD);
+      });
+      J.attributeArray("enums", [&] {
+        for (const EnumDecl *ED : V.Enums)
+        {
+          J.object([&] {
+            J.attribute("qn", ED->getQualifiedNameAsString());
+            J.attribute("underlying", D.typeIdx(ED->getIntegerType()));
+            J.attributeArray("enumerators", [&] {
+              for (const EnumConstantDecl *EC : ED->enumerators())
+                J.object([&] {
+                  J.attribute("name", EC->getNameAsString());
+                  llvm::SmallString<32> S;
+                  EC->getInitVal().toString(S, 10);
+                  J.attribute("value", S.str());
+                });
+            });
+          });
+        }
       });
       J.attributeArray("patterns", [&] {
         std::set<std::string> Done;
